@@ -144,7 +144,11 @@ func c19GenSource(r *core.Rand, nerr int, native bool) string {
 		return fmt.Sprintf("%s(%s)", f.name, strings.Join(args, ", "))
 	}
 	errStmt := func(fi int) string {
-		switch r.Intn(7) {
+		switch r.Intn(9) {
+		case 7, 8:
+			// a parenthesised comma list that is not followed by "in": reported per occurrence,
+			// with positions that differ in line and column
+			return strings.Repeat(" ", r.Intn(12)) + core.Pick(r, []string{"zq = (1, 2)", "(G1, 3)", "print (1, 2) (3, 4) > (5, 6)"})
 		case 0:
 			return "undefinedfn(1)"
 		case 1:
@@ -264,6 +268,11 @@ END { print m + 0, length(r); printf "%s %d %5.1f %x\n", "fmt", 42, 3.14159, 255
 { a[NR % 3] = a[NR % 3] $0; if (NR % 2) next; print "even", NR, $NF }
 END { n = asorted(a); print n } function asorted(arr,   k, c) { for (k in arr) c++; return c }`,
 }
+
+// c19ShellProgram shells out through the default shell command (race layer and scheduler).
+const c19ShellProgram = `BEGIN { n = 3 }
+{ cmd = "echo got-" $1 "-" NR; cmd | getline line; close(cmd); print line; if (NR <= n) { r = system("exit " NR); print "sys", r } }
+END { "echo end-" NR | getline e; print e }`
 
 func c19TestdataPrograms() []string {
 	// a few self-contained programs of the repository's testdata
@@ -839,6 +848,14 @@ func (e c19Engine) GenRace(r *core.Rand, i int) any {
 		sc.Quanta, sc.Choices = nil, nil
 		sc.Threads = r.Range(4, 12)
 		sc.Reps = r.Range(5, 30)
+		if r.Chance(1, 6) {
+			// executions that shell out with the default shell command at the same time
+			sc.Src, sc.Native = c19ShellProgram, false
+			sc.Threads, sc.Reps = r.Range(4, 8), r.Range(2, 5)
+			for k := range sc.Inputs {
+				sc.Inputs[k] = core.Bytes(fmt.Sprintf("i%d\nj%d\n", k, k))
+			}
+		}
 		return sc
 	}
 }
